@@ -25,8 +25,32 @@ fn run_partition(packets: &[Vec<u8>], mask: u32) -> (String, Snap, usize) {
     (format!("{:?}", all), snap(&p), calls)
 }
 
+/// packets that make a cache LARGE: one V9 template flowset with 1 100 templates (ids 1000..2099), the same as 1 100
+/// IPFIX template sets, V9 options templates, data for the first / last of those ids, and a V5 packet
+const BIG: usize = 8;
+const BIG_NAMES: [&str; BIG] = ["V9-T x1100 (ids 1000..2099)", "V9-D(1000)", "V9-D(2099)", "IPFIX-T x1100 (ids 1000..2099)", "IPFIX-D(1000)", "IPFIX-D(2099)", "V9-OT x1100 (ids 3000..4099)", "V5x1"];
+fn big_packet(k: usize, salt: usize) -> Vec<u8> {
+    use crate::wire::*;
+    let f = vec![fs(1, 4), fs(2, 4)];
+    let body: Vec<u8> = (0..16).map(|j| fill(salt + 3, j)).collect();
+    match k {
+        0 => v9_packet(&V9Pkt::new(vec![V9Set::Tpl((0..1100).map(|i| V9Tpl { id: 1000 + i, fields: f.clone() }).collect(), 0)])),
+        1 => v9_packet(&V9Pkt::new(vec![V9Set::Data(1000, body)])),
+        2 => v9_packet(&V9Pkt::new(vec![V9Set::Data(2099, body)])),
+        3 => ipfix_message(&IpfixMsg::new((0..1100).map(|i| IpfixSet::Tpl(vec![IpfixTpl { id: 1000 + i, fields: f.clone() }], 0)).collect())),
+        4 => ipfix_message(&IpfixMsg::new(vec![IpfixSet::Data(1000, body)])),
+        5 => ipfix_message(&IpfixMsg::new(vec![IpfixSet::Data(2099, body)])),
+        6 => v9_packet(&V9Pkt::new(vec![V9Set::OptTpl((0..1100).map(|i| V9OptTpl { id: 3000 + i, scope: vec![fs(1, 4)], opts: vec![fs(2, 4)] }).collect(), 0)])),
+        _ => fixed_distinct(5, 1, salt),
+    }
+}
+
 pub fn judge(seq: &[usize]) -> Eval {
     let packets: Vec<Vec<u8>> = seq.iter().enumerate().map(|(pos, k)| menu::packet(*k, pos * 13 + 1)).collect();
+    judge_packets(seq, packets)
+}
+
+fn judge_packets(seq: &[usize], packets: Vec<Vec<u8>>) -> Eval {
     let n = packets.len();
     let (base, base_snap, _) = run_partition(&packets, 0);
     if base.contains("Error(") {
@@ -80,6 +104,29 @@ pub fn spaces(tier: &str) -> Vec<Box<dyn Space>> {
             move |i| json!({"sequence": digits(i, &[10; 6]).into_iter().map(|d| menu::NAMES[SUB[d as usize]]).collect::<Vec<_>>(), "partitions": "all 32"}),
         ));
     }
+    // caches of more than a thousand definitions: every sequence of <= 4 packets over the 8-packet large-cache menu
+    {
+        let maxlen = 4;
+        let nl = list_count(BIG, maxlen);
+        v.push(space(
+            "all-sequences<=4-over-8-packet-large-cache-menu x all-partitions",
+            nl,
+            move |i| {
+                let seq = list_at(BIG, maxlen, i);
+                let packets: Vec<Vec<u8>> = seq.iter().enumerate().map(|(pos, k)| big_packet(*k, pos)).collect();
+                let mut e = judge_packets(&[], packets);
+                e.tags.retain(|t| !t.starts_with("early"));
+                if seq.windows(2).any(|w| (w[0] == 0 && (w[1] == 1 || w[1] == 2)) || (w[0] == 3 && (w[1] == 4 || w[1] == 5))) && !e.tags.iter().any(|t| t.starts_with("out-of-domain")) {
+                    e.tags.push("data-under-a-cache-of-more-than-1024-definitions");
+                }
+                e
+            },
+            move |i| {
+                let s = list_at(BIG, maxlen, i);
+                json!({"sequence": s.iter().map(|k| BIG_NAMES[*k]).collect::<Vec<_>>(), "partitions": "all 2^(n-1)", "packet_lengths": s.iter().enumerate().map(|(pos, k)| big_packet(*k, pos).len()).collect::<Vec<_>>()})
+            },
+        ));
+    }
     // maximal homogeneous and mixed chains: all-in-one vs one-per-call
     let kinds: Vec<(usize, usize)> = vec![(0, 2730), (7, 2340), (9, 1190), (3, 1630), (1, 540), (100, 1400)];
     v.push(space(
@@ -129,11 +176,11 @@ pub fn run(tier: &str) -> i32 {
         prop: "C11".into(),
         tier: tier.into(),
         level: "model_checking",
-        rule: "every sequence of 1..=5 packets (thorough: also every sequence of 6 over a 10-packet sub-menu) over the 17-packet self-delimiting menu (V5x0, V5x2, V7x1, V9-T, V9-D, V9-TD, V9-OT+OD, IPFIX-T, IPFIX-D, IPFIX-TD, IPFIX-T', IPFIX-D(absent id), IPFIX header only, V9 count 0, V7x0, V9 and IPFIX data-then-redefinition), each under ALL 2^(n-1) partitions into consecutive calls on a fresh parser; sequences whose one-per-call run contains an error element are outside the domain (tagged, not judged); plus maximal chains up to the datagram limit (all-in-one vs one-per-call). Oracle: canonical dump of the concatenated results and final cache snapshot identical to one-packet-per-call delivery. A sequence is distinct by the hash of its one-per-call result".into(),
+        rule: "every sequence of 1..=5 packets (thorough: also every sequence of 6 over a 10-packet sub-menu) over the 17-packet self-delimiting menu (V5x0, V5x2, V7x1, V9-T, V9-D, V9-TD, V9-OT+OD, IPFIX-T, IPFIX-D, IPFIX-TD, IPFIX-T', IPFIX-D(absent id), IPFIX header only, V9 count 0, V7x0, V9 and IPFIX data-then-redefinition), each under ALL 2^(n-1) partitions into consecutive calls on a fresh parser; sequences whose one-per-call run contains an error element are outside the domain (tagged, not judged); plus every sequence of <= 4 packets over an 8-packet large-cache menu (1 100 V9 templates in one flowset, 1 100 IPFIX template sets, 1 100 V9 options templates, data for the first and last id, V5) under all partitions, and maximal chains up to the datagram limit (all-in-one vs one-per-call). Oracle: canonical dump of the concatenated results and final cache snapshot identical to one-packet-per-call delivery. A sequence is distinct by the hash of its one-per-call result".into(),
         bounds: json!({"sequence_len": if thorough {"5 over 17 packets + 6 over 10 packets"} else {"5 over 17 packets"}, "menu": menu::NAMES[..menu::SELF_DELIMITING].to_vec(), "partitions": "all"}),
         assumptions: vec![],
         trusted_base: vec!["c11::judge".into()],
-        required_tags: vec!["early-packet-defines-template-a-later-one-needs", "out-of-domain:one-per-call-run-has-an-error"],
+        required_tags: vec!["early-packet-defines-template-a-later-one-needs", "out-of-domain:one-per-call-run-has-an-error", "data-under-a-cache-of-more-than-1024-definitions"],
         extra: Default::default(),
     };
     run_report(rep, spaces(tier))
